@@ -24,7 +24,7 @@ META = {
         'and date-times use exact conversions; only coordinates use %f.  (D5) framing: the grid template (header, column '
         'line, rows, final newline) is included in the reader\'s grid rule, no scalar text is empty or contains a raw '
         'line break, grids are joined by the separator the reader splits on.  (D6) assembly: _gen_grid rebuilds version, '
-        'ordered metadata, ordered columns and rows by zipping cells onto column names.  (D7) date-time payloads: the reader converts the written instant into the named zone with astimezone, the writer emits isoformat() of the value itself plus the zone name.  Not decided: equality of the '
+        'ordered metadata, ordered columns and rows by zipping cells onto column names.  (D7) date-time payloads: the reader converts the written instant into the named zone with astimezone, the writer emits isoformat() of the value itself plus the zone name.  Also: the version reaches every nested writer (version threading, locals resolved), the header carries the grid\'s own version, the document text is not rewritten before parsing, the zone name written is justified for that instant (shared with C17.D3).  Not decided: equality of the '
         'reconstructed objects (float parsing, tz arithmetic: see C17).'),
     'rule_text': 'obligations = ladder rows, kinds x (inclusion + pairwise disjointness) x 2 versions, code-point classes, '
                  'exactness per kind, framing/assembly facts',
@@ -49,6 +49,8 @@ def run(ctx):
             _cells(ctx, t)
         _framing(ctx, version)
     _document(ctx)
+    from . import _parse
+    _parse.text_flow(ctx, 'C01.D5')
     _assembly(ctx)
     # the grid's version reaches every nested writer (a 2.0 grid is never written with 3.0 spellings)
     _zinc.version_threading(ctx, 'C01.D2', 'zincdumper')
